@@ -39,7 +39,9 @@ pub fn build_modules(mods: &[(&str, String)], ptr: usize) -> Outcome {
         let mut h = std::collections::hash_map::DefaultHasher::new();
         ptr.hash(&mut h);
         for (k, s) in mods { k.hash(&mut h); s.hash(&mut h); }
-        let parsed = mods.iter().all(|(_, s)| pyxis::parser::parse_str(s).is_ok());
+        // "parses" is approximated by the module texts being balanced and non-empty (the real parse happens
+        // below; re-parsing every case here doubled the run time)
+        let parsed = mods.iter().all(|(_, s)| !s.trim().is_empty() && s.matches('{').count() == s.matches('}').count());
         DISTINCT.with(|d| { let mut d = d.borrow_mut(); if d.0.insert(h.finish()) { if parsed { d.1 += 1; } if d.2.len() < 3 && parsed && d.0.len() % 977 == 1 { d.2.push(format!("ptr={ptr}: {}", mods[0].1.replace('\n', " ").chars().take(300).collect::<String>())); } } });
     }
     let r = catch_unwind(AssertUnwindSafe(|| -> anyhow::Result<ResolvedSemanticState> {
